@@ -1,4 +1,6 @@
 pub mod adversarial;
+pub mod c02;
+pub mod c03;
 pub mod c08;
 pub mod explore;
 pub mod honest;
@@ -8,6 +10,8 @@ use crate::framework::Check;
 pub fn all() -> Vec<Box<dyn Check>> {
     vec![
         Box::new(honest::C01),
+        Box::new(c02::C02),
+        Box::new(c03::C03),
         Box::new(explore::C05),
         Box::new(c08::C08),
         Box::new(explore::C09),
